@@ -293,6 +293,29 @@ class Builder:
                            ast.Pass, ast.Import, ast.ImportFrom, ast.Global, ast.Nonlocal)):
             if isinstance(st, ast.Expr) and isinstance(st.value, ast.Constant):
                 return frontier                      # docstring
+            # `a, b = x, y`: the element-wise assignments it stands for (all right-hand sides are evaluated first, so temporaries are used
+            # when a later right-hand side reads an earlier target)
+            if isinstance(st, ast.Assign) and len(st.targets) == 1 and isinstance(st.targets[0], (ast.Tuple, ast.List)) \
+                    and isinstance(st.value, (ast.Tuple, ast.List)) and len(st.targets[0].elts) == len(st.value.elts) \
+                    and not any(isinstance(x, ast.Starred) for x in list(st.targets[0].elts) + list(st.value.elts)):
+                tg, vs = st.targets[0].elts, st.value.elts
+
+                def reads(v, t):
+                    tt = ast.unparse(t)
+                    return any(isinstance(x, (ast.Name, ast.Attribute, ast.Subscript)) and ast.unparse(x) == tt for x in ast.walk(v))
+                sequential = not any(reads(vs[j], tg[i]) for i in range(len(tg)) for j in range(i + 1, len(vs)))
+                parts = []
+                if sequential:
+                    parts = [ast.Assign(targets=[t], value=v) for t, v in zip(tg, vs)]
+                else:
+                    tmps = [f'__tuple_tmp{k}_{st.lineno}' for k in range(len(vs))]
+                    parts = [ast.Assign(targets=[ast.Name(nm, ast.Store())], value=v) for nm, v in zip(tmps, vs)]
+                    parts += [ast.Assign(targets=[t], value=ast.Name(nm, ast.Load())) for nm, t in zip(tmps, tg)]
+                for p_ in parts:
+                    ast.copy_location(p_, st)
+                    ast.fix_missing_locations(p_)
+                    frontier = self._stmt(p_, frontier, frame, ctx)
+                return frontier
             # property setter:  self.p = v
             if isinstance(st, ast.Assign) and len(st.targets) == 1:
                 t = st.targets[0]
@@ -678,8 +701,28 @@ def calls_at(g, node, opaque_only=True):
             if isinstance(c, ast.Call):
                 if opaque_only and (node.frame.id, id(c)) in g.inlined:
                     continue
-                out.append(c)
+                out.append(_through_frames(c, node.frame))
     return out
+
+
+_TF_CACHE = {}
+
+
+def _through_frames(c, frame):
+    """a `schedule_event(...)` call made inside an inlined helper whose arguments are parameters of that helper (the action, the event
+    type, the time are handed in by the caller): a copy of the call with those arguments replaced by what the caller passed, so that
+    every rule sees the call as if it had been written at the call site of the helper"""
+    if frame.parent is None or not (isinstance(c.func, ast.Attribute) and c.func.attr == 'schedule_event'):
+        return c
+    if not any(isinstance(x, ast.Name) and x.id in frame.argmap for a in list(c.args) + [k.value for k in c.keywords] for x in ast.walk(a)):
+        return c
+    key = (id(c), frame.id)
+    if key not in _TF_CACHE:
+        from .norm import FrameEnv, subst
+        env = FrameEnv(frame)
+        new = ast.Call(func=c.func, args=[subst(a, env) for a in c.args], keywords=[ast.keyword(arg=k.arg, value=subst(k.value, env)) for k in c.keywords])
+        _TF_CACHE[key] = ast.fix_missing_locations(ast.copy_location(new, c))
+    return _TF_CACHE[key]
 
 
 def call_attr(call):
